@@ -6,7 +6,7 @@
 use grafeo_common::types::NodeId;
 use parking_lot::RwLock;
 use std::collections::BTreeMap;
-use std::ops::RangeBounds;
+use std::ops::{Bound, RangeBounds};
 
 /// A thread-safe BTree index for range queries.
 ///
@@ -67,7 +67,20 @@ impl<K: Ord + Clone, V: Copy> BTreeIndex<K, V> {
     }
 
     /// Returns all values in the given range.
+    ///
+    /// An empty or inverted range (start after end) yields no entries.
     pub fn range<R: RangeBounds<K>>(&self, range: R) -> Vec<(K, V)> {
+        // `BTreeMap::range` panics on an inverted range and on equal bounds that are both
+        // excluded; both describe the empty set of keys.
+        match (range.start_bound(), range.end_bound()) {
+            (Bound::Excluded(start), Bound::Excluded(end)) if start == end => return Vec::new(),
+            (Bound::Included(start) | Bound::Excluded(start), Bound::Included(end) | Bound::Excluded(end))
+                if start > end =>
+            {
+                return Vec::new();
+            }
+            _ => {}
+        }
         self.map
             .read()
             .range(range)
